@@ -89,7 +89,7 @@ class C11(E1Check):
     def op_list(self, cfg):
         return std_ops(self.alpha, cfg, self.tier) + self.faults
 
-    def is_probe(self, op):
+    def is_std_probe(self, op):
         return op in self.fault_set and op not in self.edge_faults
 
     def enabled(self, op, contents, cfg, history):
